@@ -1,11 +1,16 @@
 package main
 
 import (
+	"os"
+
 	"verifharness/props/c19"
 	"verifharness/vh"
 )
 
 func main() {
+	if os.Getenv("C19_ASAN_LEG") != "" { // child process built with -asan (thorough tier)
+		os.Exit(c19.AsanChildMain())
+	}
 	run := vh.Start("C19")
 	c19.Run(run)
 	run.Finish()
